@@ -140,6 +140,33 @@ struct ErrInfo {
     pl: Pl,
     /// None = labels() panicked; Some(None) = no label
     label: Option<Option<(usize, usize)>>,
+    /// the `is_*` predicates agree with the variant
+    acc: Result<(), String>,
+}
+
+fn acc_resolve(e: &resolve::Error) -> Result<(), String> {
+    use resolve::Error as E;
+    let want = (
+        matches!(e, E::Unreachable { .. }),
+        matches!(e, E::NotFound { .. }),
+        matches!(e, E::OutOfBounds { .. }),
+        matches!(e, E::FailedToParseIndex { .. }),
+    );
+    let got = guard(|| (e.is_unreachable(), e.is_not_found(), e.is_out_of_bounds(), e.is_failed_to_parse_index()));
+    if got != Some(want) {
+        return Err("is_predicates_disagree_with_variant".to_string());
+    }
+    Ok(())
+}
+
+fn acc_assign(e: &assign::Error) -> Result<(), String> {
+    use assign::Error as E;
+    let want = (matches!(e, E::OutOfBounds { .. }), matches!(e, E::FailedToParseIndex { .. }));
+    let got = guard(|| (e.is_out_of_bounds(), e.is_failed_to_parse_index()));
+    if got != Some(want) {
+        return Err("is_predicates_disagree_with_variant".to_string());
+    }
+    Ok(())
 }
 
 fn info_resolve(e: &resolve::Error, p: &Pointer) -> ErrInfo {
@@ -151,7 +178,7 @@ fn info_resolve(e: &resolve::Error, p: &Pointer) -> ErrInfo {
     };
     let subject: PointerBuf = p.to_buf();
     let label = guard(|| <resolve::Error as Diagnostic>::labels(e, &subject).and_then(|mut it| it.next()).map(label_of));
-    ErrInfo { kind, pos: e.position(), off: e.offset(), pl, label }
+    ErrInfo { kind, pos: e.position(), off: e.offset(), pl, label, acc: acc_resolve(e) }
 }
 
 fn info_assign(e: &assign::Error, p: &Pointer) -> ErrInfo {
@@ -161,7 +188,7 @@ fn info_assign(e: &assign::Error, p: &Pointer) -> ErrInfo {
     };
     let subject: PointerBuf = p.to_buf();
     let label = guard(|| <assign::Error as Diagnostic>::labels(e, &subject).and_then(|mut it| it.next()).map(label_of));
-    ErrInfo { kind, pos: e.position(), off: e.offset(), pl, label }
+    ErrInfo { kind, pos: e.position(), off: e.offset(), pl, label, acc: acc_assign(e) }
 }
 
 fn emit_locate(o: &mut Out, p: &Pointer, info: Option<&ErrInfo>) {
@@ -203,6 +230,7 @@ fn locate_law(l: &mut Law, p: &Pointer, info: &ErrInfo, expected: Result<(), &Re
         }
         Err(e) => e,
     };
+    l.res(info.acc.clone());
     l.ck(info.pos == exp.pos, "position_is_not_the_failing_token");
     l.ck(info.kind == exp.kind, "kind_differs_from_reference_walk");
     if info.pos >= toks.len() {
@@ -315,9 +343,25 @@ pub fn op_resolve<B: Be>(mut doc: B, p: &Pointer, mutable: bool) -> String {
         (Err(a), Err(b)) => law_mut_same.ck(a == b, "different_error"),
         _ => law_mut_same.fail("different_outcome"),
     }
+    // the inherent entry points `Pointer::resolve` / `Pointer::resolve_mut` forward to the trait
+    let mut law_fwd = Law::new();
+    {
+        let via: Option<Result<*const B, resolve::Error>> = if mutable {
+            guard(|| p.resolve_mut(&mut doc).map(|r| r as *const B))
+        } else {
+            guard(|| p.resolve(&doc).map(|r| r as *const B))
+        };
+        match (&primary, &via) {
+            (_, None) => law_fwd.fail("panic"),
+            (Ok((a, _)), Some(Ok(b))) => law_fwd.ck(a == b, "pointer_method_reaches_a_different_node"),
+            (Err(a), Some(Err(b))) => law_fwd.ck(a == b, "pointer_method_gives_a_different_error"),
+            _ => law_fwd.fail("pointer_method_gives_a_different_outcome"),
+        }
+    }
     o.law("law_walk", &law_walk);
     o.law("law_locate", &law_locate);
     o.law("law_mut_same", &law_mut_same);
+    o.law("law_fwd", &law_fwd);
     o.finish()
 }
 
@@ -528,8 +572,22 @@ pub fn op_assign<B: Be>(mut doc: B, p: &Pointer, v: B) -> String {
     o.law("law_frame", &law_frame);
     o.law("law_replaced", &law_replaced);
     o.law("law_idem", &law_idem);
+    // the inherent entry point `Pointer::assign` forwards to the trait
+    let mut law_fwd = Law::new();
+    {
+        let mut c = old.clone();
+        match guard(|| { let r3: Result<Option<B>, assign::Error> = p.assign(&mut c, v.clone()); r3 }) {
+            None => law_fwd.fail("panic"),
+            Some(r3) => {
+                law_fwd.ck(fmt_assign_r(&r3) == fmt_assign_r(&r), "pointer_method_gives_a_different_result");
+                if let (Err(a), Err(b)) = (&r, &r3) { law_fwd.ck(a == b, "pointer_method_gives_a_different_error"); }
+            }
+        }
+        law_fwd.ck(c == doc, "pointer_method_leaves_a_different_document");
+    }
     o.law("law_locate", &law_locate);
     o.law("law_slack", &law_slack);
+    o.law("law_fwd", &law_fwd);
     o.finish()
 }
 
@@ -632,8 +690,17 @@ pub fn op_delete<B: Be>(mut doc: B, p: &Pointer) -> String {
     o.law("law_agrees", &law_agrees);
     o.law("law_none_unchanged", &law_none_unchanged);
     o.law("law_removed", &law_removed);
+    // the inherent entry point `Pointer::delete` forwards to the trait
+    let mut law_fwd = Law::new();
+    {
+        let mut c = old.clone();
+        let r3: Option<Option<B>> = guard(|| p.delete(&mut c));
+        law_fwd.ck(fmt_delete_r(&r3) == fmt_delete_r(&r), "pointer_method_gives_a_different_result");
+        law_fwd.ck(c == doc, "pointer_method_leaves_a_different_document");
+    }
     o.law("law_root", &law_root);
     o.law("law_slack", &law_slack);
+    o.law("law_fwd", &law_fwd);
     o.finish()
 }
 
